@@ -225,7 +225,7 @@ def same(a, b):
     return type(a) == type(b) and a == b
 
 
-def run(scn, emit_step, ram=None):
+def run(scn, emit_step, ram=None, entry='parts'):
     flags = expected_flags(scn)
     procs, topo = {}, {}
     for i, p in enumerate(scn['procs']):
@@ -251,8 +251,14 @@ def run(scn, emit_step, ram=None):
                      emitter='timeseries', emit_step=emit_step, **kw)
         eng.update(ram['length'])
         return eng.emitter.get_data(), []
-    eng = Engine(processes=procs, topology=topo, initial_state=init, display_info=False, progress_bar=False,
-                 emitter='null', emit_step=emit_step, **kw)
+    if entry == 'store':
+        # the same hierarchy handed over as a ready-made store: store_schema (emit flags) acts on it all the same
+        from vivarium.core.store import generate_state
+        store = generate_state(procs, topo, init)
+        eng = Engine(store=store, display_info=False, progress_bar=False, emitter='null', emit_step=emit_step, **kw)
+    else:
+        eng = Engine(processes=procs, topology=topo, initial_state=init, display_info=False, progress_bar=False,
+                     emitter='null', emit_step=emit_step, **kw)
     rows = []
     fails = []
     ser = eng.state.get_path(('cell',))
@@ -305,6 +311,12 @@ def check(scn):
         ts = [t for t, _ in rows1]
         if any(b <= a for a, b in zip(ts, ts[1:])):
             fails.append('row times not strictly increasing: %s' % ts)
+        if scn.get('overrides') and not fails and not scn.get('starstar'):
+            rows_s, fails = run(scn, 1, entry='store')
+            if not fails and [(t, sorted(r)) for t, r in rows_s] != [(t, sorted(r)) for t, r in rows1]:
+                k = next((i for i, (a_, b_) in enumerate(zip(rows_s, rows1)) if (a_[0], sorted(a_[1])) != (b_[0], sorted(b_[1]))), 0)
+                fails.append('Engine(store=..., store_schema=...) emits other variables than Engine(processes=..., store_schema=...): '
+                             'row %d holds %s / %s' % (k, sorted(rows_s[k][1]) if k < len(rows_s) else None, sorted(rows1[k][1])))
         if scn.get('ram') and not fails:
             ram = scn['ram']
             full, _ = run(scn, 1, ram)
